@@ -513,7 +513,11 @@ func sigtermTrial(r *vh.Run, bin string, i int) {
 	root := r.TempDir("c19s")
 	defer vh.RemoveAll(root)
 	wit := map[string]any{"trial": i}
-	p, err := launch(bin, "--dir", root, "--api-delete", "--gc-frequency", []string{"-1s", "20ms"}[i%2], "--gc-grace-period", "1h")
+	// every other pair of trials runs with a rate limit far above the traffic: the limit must not change how the
+	// server stops (each request then takes the server lock)
+	rate := []string{"0", "1000000"}[(i/2)%2]
+	wit["rate_limit"] = rate
+	p, err := launch(bin, "--dir", root, "--api-delete", "--gc-frequency", []string{"-1s", "20ms"}[i%2], "--gc-grace-period", "1h", "--rate-limit", rate)
 	if err != nil {
 		r.Inconclusive("binary did not start: " + err.Error())
 		return
